@@ -11,6 +11,7 @@
 EXTENDS RubiksCube, TraceKit
 
 Scrambled == Cfg.mode = "scramble"
+SparseReward == ("reward" \notin DOMAIN Cfg) \/ Cfg.reward = "sparse"
 U(e) == e.a.u
 RewardInt(e) == e.ts.reward.i[1]
 FC(s) == FlatCube(s.cube)
@@ -52,9 +53,13 @@ C17Move(i) ==
     { <<"C17.move_is_model_permutation", CubeShape(e.s.cube) /\ post = ApplyMove(pre, U(e))>>,
       <<"C17.move_is_model_permutation.step_count", e.s.step_count = Pre(i).step_count + 1>>,
       <<"C17.multiset_conserved", SameMultiset(pre, post)>>,
-      \* the solved test, observed through the sparse reward and the termination flag
-      <<"C17.solved_iff_goal", (RewardInt(e) = 1 <=> Solved(post)) /\ RewardInt(e) \in {0, 1}
-                                /\ e.ts.reward.q[1] = RewardInt(e) * FX>>,
+      \* the solved test, observed through the sparse reward and the termination flag; with a user-supplied reward
+      \* function (Cfg.reward # "sparse": the reward says nothing about the goal) through the termination flag alone -
+      \* the episode ends exactly when the cube is the goal cube or the time is up
+      <<"C17.solved_iff_goal",
+          IF SparseReward
+          THEN (RewardInt(e) = 1 <=> Solved(post)) /\ RewardInt(e) \in {0, 1} /\ e.ts.reward.q[1] = RewardInt(e) * FX
+          ELSE ~e.pl => ((e.ts.type = LAST) <=> (Solved(post) \/ e.s.step_count >= TimeLimit))>>,
       <<"C17.solved_iff_goal.terminates", (~e.pl /\ Solved(post)) => e.ts.type = LAST>>,
       \* action encodings: unflatten(flatten(u)) = u, flatten(unflatten(k)) = k, and both are the documented index
       <<"C17.flatten_unflatten_inverse", /\ U(e) \in ActionTriples
